@@ -187,6 +187,12 @@ def prove(targets, props=None, timeout_ms=10000, use_cvc5='fallback'):
         res.units.append(verify_cached(modname, q))
       except EngineError as e:
         res.errors.append('%s.%s: %s' % (modname, q, e))
+      except Exception as e:  # pylint: disable=broad-except
+        # a sidecar clause that no longer fits the (changed) source: an
+        # engine error for this function, never a reason to skip the rest of
+        # the check (the bounded part still runs)
+        res.errors.append('%s.%s: %s: %s' % (modname, q, type(e).__name__,
+                                             str(e)[:300]))
     if with_lemmas:
       for label, fn, lprops in getattr(side, 'LEMMAS', []):
         try:
